@@ -3,7 +3,7 @@
 set -e
 cd /verif
 mkdir -p lean/PoaVerif/Witness
-for f in corpus/D*.ops; do
+for f in corpus/D*.ops corpus/Q*.ops; do
   n=$(basename $f .ops)
   lean/.lake/build/bin/poamodel --lean $n < $f > lean/PoaVerif/Witness/$n.lean
 done
